@@ -2,6 +2,7 @@ package chainx
 
 import (
 	"fmt"
+	"math/big"
 
 	"verifharness/vh"
 )
@@ -19,6 +20,7 @@ type GenCfg struct {
 	// (total works differ by less than difficulty/5: a near tie in both submission orders) and a
 	// body-invalid, header-valid block extended until its branch is the heaviest of the tree.
 	Directed bool
+	fast     bool // volatile network: one-second blocks unless a shape says otherwise
 }
 
 // RandomNet picks hardfork heights so that short trees cross the v1-only / overlap / v2-only
@@ -33,6 +35,9 @@ func RandomNet(rng *vh.RNG) *Net {
 	if allow == 1 && rng.Bool() {
 		require = 1
 	}
+	if rng.Chance(1, 4) {
+		return NewVolatileNet(rng, allow, require, uint64(2+rng.Intn(3)))
+	}
 	return NewNet(rng, allow, require, uint64(2+rng.Intn(3)))
 }
 
@@ -46,13 +51,18 @@ func (cfg GenCfg) spec(rng *vh.RNG) Spec {
 	// block times from far below to far above the 1 s block interval, so that the per-block
 	// difficulty adjustment moves both ways and equal-length forks get different total work
 	dts := []int{8, 9, 10, 10, 10, 11, 12, 3, 25}
-	return Spec{Kinds: kinds, Dt: dts[rng.Intn(len(dts))]}
+	dt := dts[rng.Intn(len(dts))]
+	if cfg.fast {
+		dt = 1
+	}
+	return Spec{Kinds: kinds, Dt: dt}
 }
 
 // GenTree grows a fork tree.
 func GenTree(rng *vh.RNG, net *Net, cfg GenCfg) *Tree {
 	t := NewTree(net)
 	tip := 0
+	cfg.fast = net.Volatile
 	for i := 0; i < cfg.Main; i++ {
 		tip = t.Mine(rng, tip, cfg.spec(rng))
 	}
@@ -103,7 +113,66 @@ func GenTree(rng *vh.RNG, net *Net, cfg GenCfg) *Tree {
 		t.addNearTie(rng, cfg)
 		t.addInvalidHeaviest(rng)
 	}
+	if net.Volatile {
+		t.addShorterHeavier(rng, cfg)
+	}
 	return t
+}
+
+// addShorterHeavier (volatile networks): the heaviest valid chain gets a tail of slow blocks (the
+// difficulty falls) and a competing branch of fast blocks forks off below that tail and stops
+// as soon as it is sufficiently heavier — usually while it is still SHORTER than the slow chain.
+func (t *Tree) addShorterHeavier(rng *vh.RNG, cfg GenCfg) {
+	leaf := t.heaviestValidLeaf()
+	at := leaf
+	// prefer a fork point at or above the v2 require height, so that the fast branch is also a
+	// run of blocks an instant-syncing peer would hand over pre-validated
+	req := t.Net.N.HardforkV2.RequireHeight
+	stayAbove := rng.Chance(3, 4)
+	for i, n := 0, 2+rng.Intn(3); i < n && at != 0; i++ {
+		if stayAbove && i > 0 && t.Blocks[at].Height <= req {
+			break
+		}
+		at = t.Blocks[at].Parent
+	}
+	slow := leaf
+	for i := 0; i < 5+rng.Intn(8); i++ {
+		sp := cfg.spec(rng)
+		sp.Dt = 800 + rng.Intn(400)
+		slow = t.Mine(rng, slow, sp)
+	}
+	fast := at
+	for i := 0; i < 40; i++ {
+		sp := cfg.spec(rng)
+		sp.Dt = 1
+		fast = t.Mine(rng, fast, sp)
+		th := new(big.Int).Add(t.Blocks[slow].Work, new(big.Int).Div(t.Blocks[slow].Diff, big.NewInt(5)))
+		if t.Blocks[fast].Work.Cmp(th) > 0 {
+			t.SlowLeaf, t.FastLeaf = slow, fast
+			break
+		}
+	}
+}
+
+// ShorterHeavierSchedule submits the slow chain, then the fast (shorter, heavier) branch, then
+// extends nothing: the reorg goes to a LOWER height. nil if the tree has no such pair.
+func (t *Tree) ShorterHeavierSchedule(rng *vh.RNG) [][]int {
+	if t.SlowLeaf == 0 || t.FastLeaf == 0 {
+		return nil
+	}
+	var out [][]int
+	for _, leaf := range []int{t.SlowLeaf, t.FastLeaf} {
+		path := t.PathFromRoot(leaf)
+		for k := 0; k < len(path); {
+			n := 1 + rng.Intn(5)
+			if k+n > len(path) {
+				n = len(path) - k
+			}
+			out = append(out, path[k:k+n])
+			k += n
+		}
+	}
+	return out
 }
 
 // heaviestValidLeaf returns the fully valid block with the most work.
